@@ -3018,6 +3018,40 @@ func lockBalance(p *Program, r *Report, scope func(*FuncInfo) bool) int {
 				return s
 			},
 		})
+		// a mutex is not locked again while the function certainly holds it (sync mutexes are not re-entrant, and a
+		// write lock waits for the function's own read lock)
+		must := g.Lockset()
+		inspectNoLit(body, func(x ast.Node) bool {
+			c, ok := x.(*ast.CallExpr)
+			if !ok {
+				return true
+			}
+			kind, isMu := isMutexMethod(calleeName(info, c))
+			if !isMu || kind != "Lock" && kind != "RLock" {
+				return true
+			}
+			rx := recvExpr(c)
+			if rx == nil {
+				return true
+			}
+			if _, isDefer := p.Parent(c).(*ast.DeferStmt); isDefer {
+				return true
+			}
+			node, found := g.cfgNodeOf(c)
+			if !found {
+				return true
+			}
+			held, has := must.Before(node)
+			if !has {
+				return true
+			}
+			nm := exprStr(rx)
+			if held[nm] || held["R:"+nm] && kind == "Lock" {
+				n++
+				r.Bad(c, name+" locks "+nm+" while holding it", "the function takes "+nm+" again on a path on which it certainly still holds it: the goroutine blocks on itself")
+			}
+			return true
+		})
 		for _, e := range g.Exits() {
 			if e.Kind == ExitPanic {
 				continue
@@ -3168,6 +3202,82 @@ func atomicDiscipline(p *Program, r *Report) int {
 			}
 			r.Check(okAtomic, sel, fi.Name+" accesses "+exprStr(sel)+" atomically", "operand of a sync/atomic call",
 				"the field "+f.Name()+" is accessed through sync/atomic elsewhere in the module and plainly here: the plain access races with the atomic ones (a stale or torn value of a state word, a counter update that is lost)")
+			return true
+		})
+	}
+	return n
+}
+
+// nilDerefs: no field is read or written through a pointer at a point where the guard facts say the pointer is nil
+// (the inverted nil test: `if x != nil { return }` followed by x.f). Checked in every function of the module.
+func nilDerefs(p *Program, r *Report, scope func(*FuncInfo) bool) int {
+	n := 0
+	for _, fi := range p.SortedFuncs() {
+		if fi.Decl.Body == nil || !scope(fi) {
+			continue
+		}
+		info := fi.Pkg.TypesInfo
+		// only functions that test a pointer against nil at all
+		tested := map[string]bool{}
+		inspectNoLit(fi.Decl.Body, func(x ast.Node) bool {
+			if be, ok := x.(*ast.BinaryExpr); ok && (be.Op == token.EQL || be.Op == token.NEQ) {
+				for _, pr := range [][2]ast.Expr{{be.X, be.Y}, {be.Y, be.X}} {
+					if isNil(info, pr[1]) {
+						if id, isId := ast.Unparen(pr[0]).(*ast.Ident); isId {
+							if _, isPtr := info.TypeOf(id).Underlying().(*types.Pointer); isPtr {
+								tested[id.Name] = true
+							}
+						}
+					}
+				}
+			}
+			return true
+		})
+		if len(tested) == 0 {
+			continue
+		}
+		g := p.GraphOf(fi)
+		facts := g.GuardFacts()
+		inspectNoLit(fi.Decl.Body, func(x ast.Node) bool {
+			var base ast.Expr
+			switch e := x.(type) {
+			case *ast.SelectorExpr:
+				if sel := info.Selections[e]; sel == nil || sel.Kind() != types.FieldVal {
+					return true
+				}
+				base = e.X
+			case *ast.StarExpr:
+				base = e.X
+			default:
+				return true
+			}
+			id, ok := ast.Unparen(base).(*ast.Ident)
+			if !ok || !tested[id.Name] {
+				return true
+			}
+			if _, isPtr := info.TypeOf(id).Underlying().(*types.Pointer); !isPtr {
+				return true
+			}
+			node, found := g.cfgNodeOf(x)
+			if !found {
+				return true
+			}
+			f, has := facts.Before(node)
+			if !has {
+				return true
+			}
+			n++
+			v, known := f.KnownStr(id.Name + " == nil")
+			// inside the condition that tests it (x != nil && x.f): the short-circuit protects the access
+			if known && v {
+				for pn := p.Parent(x); pn != nil && pn != node; pn = p.Parent(pn) {
+					if be, isB := pn.(*ast.BinaryExpr); isB && (be.Op == token.LAND || be.Op == token.LOR) && posWithin(be.Y, x.Pos()) {
+						known = false
+					}
+				}
+			}
+			r.Check(!(known && v), x, fi.Name+" reads "+exprStr(x.(ast.Expr))+" where "+id.Name+" is not known to be nil", "no dominating test that found the pointer nil",
+				id.Name+" is known to be nil here (the test that dominates this access found it nil): the access panics in whatever goroutine runs it")
 			return true
 		})
 	}
